@@ -45,6 +45,12 @@ class COOData:
     def tolocal(self, basis=None):
         """Return an array of local finite element matrices.
 
+        The first axis of the returned array is the element index and the
+        remaining axes are ordered as the axes of the global tensor, e.g.,
+        for a bilinear form the entry ``[e, i, j]`` is the contribution of
+        the element ``e`` for the test function ``i`` and the trial function
+        ``j``.
+
         Parameters
         ----------
         basis
@@ -56,8 +62,8 @@ class COOData:
             raise NotImplementedError("Cannot build local matrices if "
                                       "local_shape is not specified.")
 
-        local = np.moveaxis(self.data.reshape(self.local_shape + (-1,),
-                                              order='C'), -1, 0)
+        # the element index runs fastest in data, the last local index slowest
+        local = self.data.reshape((-1,) + self.local_shape, order='F')
         if basis is not None:
             out = np.zeros((basis.mesh.nfacets,) + local.shape[1:])
             out[basis.find] = local
@@ -69,7 +75,7 @@ class COOData:
         """Reverse of :meth:`COOData.tolocal`."""
         return replace(
             self,
-            data=np.moveaxis(local, 0, -1).flatten('C'),
+            data=local.flatten('F'),
         )
 
     def inverse(self):
